@@ -15,3 +15,4 @@ import DnaModel.Props.C14
 import DnaModel.Props.C06
 import DnaModel.Props.C02
 import DnaModel.Props.C03
+import DnaModel.Props.C12
